@@ -22,8 +22,8 @@ Import ListNotations.
 From RX Require Import Generated.
 From RX.Model Require Import Base CharClass Stream Tokenizer Doc Builder Parse Api.
 From RX.Proofs Require Import LexerProofs NoPanicTokenizer RangeTokenizer RangeArena RangeInv RangeBuilder RangeParse RangeAttrLocal RangeAttrTok RangeAttrParse RangeShiftBase RangeShiftStream RangeShiftTokenizer RangeShiftBuilder RangeShiftParse RangeShiftFinal CstRangeDefs CstRangeMain CstRangeTDefs CstRangeTMain CstEntDoc CstRangeEDefs CstRangeEMain CstRangeEValid.
-From RX.Spec Require Cst CstText CstEnt CstFull.
-From RX.Proofs Require CstRangeFDefs CstRangeFS2.
+From RX.Spec Require Cst CstText CstEnt CstFull CstFullS5.
+From RX.Proofs Require CstRangeFDefs CstRangeFS2 CstRangeGDefs CstRangeGS3 CstRangeG5Defs CstRangeG5.
 Open Scope N_scope.
 
 (* ---- Proofs/RangeParse.v ---- *)
@@ -215,8 +215,73 @@ Print Assumptions C13_parse_render_attr_ranges_f2.
 
 End G7.
 
-(* ---- Proofs/RangeTokenizer.v ---- *)
+(* ---- Proofs/CstRangeGS3.v ---- *)
 Module G8.
+Import RX.Spec.CstFull. Import RX.Proofs.CstRangeFDefs. Import RX.Proofs.CstRangeGDefs. Import RX.Proofs.CstRangeGS3.
+Theorem C13_parse_render_ranges_f3 :
+  forall (d : S3.doc) (opt : options) doc,
+  S3.wf_doc d = true ->
+  allow_dtd opt = true ->                                         (* the options allow a DOCTYPE *)
+  N.of_nat (length (S3.sem d)) < nodes_limit opt ->               (* room for all nodes + the Root *)
+  N.of_nat (length (S3.render d)) <= u32_max ->                    (* the input is at most u32::MAX bytes long *)
+  S3.distinct_decls_le d (N.to_nat 65535) ->                       (* at most 65535 distinct declared bindings *)
+  1 + N.of_nat (S3.ns_cost d) <= u32_max ->                        (* the namespace table fits *)
+  parse (S3.render d) opt = Ok doc ->
+  (* every node below the Root, in document order: the span of the construct it was read from -- in
+     the document, or (a Text node that starts with the value of an entity) inside the literal of
+     the entity declaration in the DOCTYPE *)
+  map nd_range (tl (d_nodes doc)) = fspans3 d /\
+  (exists root, nth_N (d_nodes doc) 0 = Some root /\ nd_range root = (0, N.of_nat (length (S3.render d)))) /\
+  (* all these offsets are on character boundaries *)
+  Forall (fun r => is_boundary (S3.render d) (fst r) = true /\ is_boundary (S3.render d) (snd r) = true) (fspans3 d).
+Proof. exact parse_render_ranges_f3. Qed.
+Print Assumptions C13_parse_render_ranges_f3.
+
+End G8.
+
+(* ---- Proofs/CstRangeG5.v ---- *)
+Module G9.
+Import RX.Spec.CstFull. Import RX.Spec.CstFullS5. Import RX.Proofs.CstRangeFDefs. Import RX.Proofs.CstRangeFS2. Import RX.Proofs.CstRangeG5Defs. Import RX.Proofs.CstRangeG5.
+Theorem C13_parse_render_ranges_f5 :
+  forall (d : S5.doc) (opt : options) doc,
+  S5.wf_doc d = true ->
+  (S5.has_dtd d = true -> allow_dtd opt = true) ->                (* a DOCTYPE needs the option *)
+  N.of_nat (length (S5.sem d)) < nodes_limit opt ->               (* room for all nodes + the Root *)
+  N.of_nat (length (S5.render d)) <= u32_max ->                    (* the input is at most u32::MAX bytes long *)
+  S5.distinct_decls_le d (N.to_nat 65535) ->                       (* at most 65535 distinct declared bindings *)
+  1 + N.of_nat (S5.ns_cost d) <= u32_max ->                        (* the namespace table fits *)
+  parse (S5.render d) opt = Ok doc ->
+  (* every node below the Root, in document order -- the comments / PIs before the DOCTYPE, those of
+     the internal subset, those between the DOCTYPE and the root element, the root element with all
+     it contains, those after it: the span of the construct it was read from -- in the document, or
+     (a Text node that starts with the value of an entity) inside the literal of the entity
+     declaration in the internal subset *)
+  map nd_range (tl (d_nodes doc)) = fspans5 d /\
+  (* the Root: the whole input, the byte order mark and the XML declaration included *)
+  (exists root, nth_N (d_nodes doc) 0 = Some root /\ nd_range root = (0, N.of_nat (length (S5.render d)))) /\
+  (* all these offsets are on character boundaries *)
+  Forall (fun r => is_boundary (S5.render d) (fst r) = true /\ is_boundary (S5.render d) (snd r) = true) (fspans5 d).
+Proof. exact parse_render_ranges_f5. Qed.
+Print Assumptions C13_parse_render_ranges_f5.
+
+Theorem C13_parse_render_attr_ranges_f5 :
+  forall (d : S5.doc) (opt : options) doc,
+  S5.wf_doc d = true -> (S5.has_dtd d = true -> allow_dtd opt = true) ->
+  N.of_nat (length (S5.sem d)) < nodes_limit opt ->
+  N.of_nat (length (S5.render d)) <= u32_max ->
+  S5.distinct_decls_le d (N.to_nat 65535) ->
+  1 + N.of_nat (S5.ns_cost d) <= u32_max ->
+  fattrs_small5 d ->                                           (* below the saturation limits *)
+  parse (S5.render d) opt = Ok doc ->
+  map (fun a => (ad_range a, attr_range_qname a, attr_range_value a)) (d_attrs doc) =
+  map (fun s => (fa_range s, fa_qname s, Ok (fa_value s))) (fattr_spans5 d).
+Proof. exact parse_render_attr_ranges_f5. Qed.
+Print Assumptions C13_parse_render_attr_ranges_f5.
+
+End G9.
+
+(* ---- Proofs/RangeTokenizer.v ---- *)
+Module G10.
 Local Notation token := Tokenizer.token.
 Theorem C13_tokenizer_token_ranges :
   forall text (C : Type) (ev : token -> C -> res C)
@@ -228,10 +293,10 @@ Theorem C13_tokenizer_token_ranges :
 Proof. exact tokenizer_token_ranges. Qed.
 Print Assumptions C13_tokenizer_token_ranges.
 
-End G8.
+End G10.
 
 (* ---- Proofs/LexerProofs.v ---- *)
-Module G9.
+Module G11.
 Local Notation token := Tokenizer.token.
 Theorem C13_parse_comment_post :
   forall (text : bytes), forall s acc s' acc', SInv text s ->
@@ -302,7 +367,7 @@ Theorem C13_parse_close_element_post :
 Proof. exact parse_close_element_post. Qed.
 Print Assumptions C13_parse_close_element_post.
 
-End G9.
+End G11.
 
 
 (* the slice shapes of C13, for every node of every parsed rendering of the Cst fragment *)
